@@ -222,9 +222,10 @@ func c08Run(c *config, items []c08Item, label string, sample bool) {
 
 func c08Text(r *rng, items []c08Item, explicit bool, perturb int) (string, int) {
 	want := c08Llvm(items)
+	names := c08Names(items, want)
 	name := func(k int) string {
 		if items[k].named {
-			return fmt.Sprintf("%%n%d", k)
+			return "%" + names[k]
 		}
 		id := want[k]
 		if k == perturb {
@@ -256,7 +257,7 @@ func c08Text(r *rng, items []c08Item, explicit bool, perturb int) (string, int) 
 		switch it.kind {
 		case 'B':
 			if it.named {
-				fmt.Fprintf(&b, "n%d:\n", i)
+				fmt.Fprintf(&b, "%s:\n", names[i])
 			} else if explicit || i == perturb || !first {
 				id := want[i]
 				if i == perturb {
@@ -285,17 +286,17 @@ func c08Text(r *rng, items []c08Item, explicit bool, perturb int) (string, int) 
 			b.WriteString("\tret void\n")
 		case 'N', 'O':
 			// invoke to the next block (or itself when last)
-			tgt := "%" + c08BlockLabel(items, want, i)
+			tgt := "%" + c08BlockLabel(items, want, names, i)
 			if it.kind == 'N' {
 				fmt.Fprintf(&b, "\t%sinvoke %s @if() to label %s unwind label %s\n", lhs, []string{"i32", "i32 ()"}[r.intn(2)], tgt, tgt)
 			} else {
 				fmt.Fprintf(&b, "\tinvoke %s @vf() to label %s unwind label %s\n", []string{"void", "void ()"}[r.intn(2)], tgt, tgt)
 			}
 		case 'W':
-			tgt := "%" + c08BlockLabel(items, want, i)
+			tgt := "%" + c08BlockLabel(items, want, names, i)
 			fmt.Fprintf(&b, "\t%scatchswitch within none [label %s] unwind to caller\n", lhs, tgt)
 		case 'L', 'M':
-			tgt := "%" + c08BlockLabel(items, want, i)
+			tgt := "%" + c08BlockLabel(items, want, names, i)
 			if it.kind == 'L' {
 				fmt.Fprintf(&b, "\t%scallbr i32 @if() to label %s [label %s]\n", lhs, tgt, tgt)
 			} else {
@@ -304,15 +305,61 @@ func c08Text(r *rng, items []c08Item, explicit bool, perturb int) (string, int) 
 		}
 	}
 	b.WriteString("}\n")
+	// the address of every block but the first, taken from outside the function: by number or by name
+	firstB := true
+	for k, it := range items {
+		if it.kind != 'B' {
+			continue
+		}
+		if firstB {
+			firstB = false
+			continue
+		}
+		if it.named {
+			fmt.Fprintf(&b, "@ba%d = global i8* blockaddress(@f, %%%s)\n", k, names[k])
+		} else {
+			id := want[k]
+			if k == perturb {
+				id++
+			}
+			fmt.Fprintf(&b, "@ba%d = global i8* blockaddress(@f, %%%d)\n", k, id)
+		}
+	}
 	return b.String(), uses
 }
 
-func c08BlockLabel(items []c08Item, want []int64, from int) string {
+// c08Names gives the named entries their names: n<k>, or for every third one a quoted name that reads as a
+// number carried by an unnamed value of the same function (%"3" next to %3: a name, not a number)
+func c08Names(items []c08Item, want []int64) []string {
+	names := make([]string, len(items))
+	used := map[int64]bool{}
+	for k, it := range items {
+		if !it.named {
+			continue
+		}
+		names[k] = fmt.Sprintf("n%d", k)
+		// (blocks only: a quoted number as the name of an instruction result is rejected, KF-03 under C11)
+		if k%3 != 0 || it.kind != 'B' {
+			continue
+		}
+		for d := 1; d < len(items); d++ {
+			j := (k + d) % len(items)
+			if !items[j].named && want[j] >= 0 && !used[want[j]] {
+				used[want[j]] = true
+				names[k] = fmt.Sprintf("\"%d\"", want[j])
+				break
+			}
+		}
+	}
+	return names
+}
+
+func c08BlockLabel(items []c08Item, want []int64, names []string, from int) string {
 	// the enclosing block of position from
 	for k := from; k >= 0; k-- {
 		if items[k].kind == 'B' {
 			if items[k].named {
-				return fmt.Sprintf("n%d", k)
+				return names[k]
 			}
 			return fmt.Sprint(want[k])
 		}
@@ -340,6 +387,9 @@ func c08ParseCheck(c *config, r *rng, items []c08Item) {
 			return nil
 		})
 		o.Stat(fmt.Sprintf("parse.explicit_%v", explicit))
+		if strings.Contains(src, "\":\n") {
+			o.Stat("parse.quoted_numeric_block_name")
+		}
 		det := map[string]interface{}{"src": src, "msg": msg}
 		if oc != ocOk {
 			o.Fail("llvm_numbering_accepted", "", "a numbering LLVM accepts is rejected or crashes: "+oc.String(), det)
@@ -391,6 +441,17 @@ func c08ParseCheck(c *config, r *rng, items []c08Item) {
 						}
 					}
 				}
+			}
+		}
+		// a blockaddress taken outside the function is the block itself
+		for _, g := range m.Globals {
+			var k int
+			if _, err := fmt.Sscanf(g.Name(), "ba%d", &k); err != nil || k >= len(walk) {
+				continue
+			}
+			o.Stat("parse.blockaddress_outside")
+			if ba, ok := g.Init.(*constant.BlockAddress); !ok || value.Value(ba.Block) != walk[k] {
+				bad = fmt.Sprintf("blockaddress of entry %d (@%s) is not bound to that block", k, g.Name())
 			}
 		}
 		if bad != "" {
